@@ -55,7 +55,7 @@ fn fl(t: bool) -> char {
 
 pub fn run(run: &Run) {
     run.rule("every (m,l,n) × 4 transpose flags × block sizes for the slice kernels; every shape pair (conformable or not) × 4 methods × 4 ownership forms for the Dot trait; entries injective small integers, oracle = i64 triple loop on explicitly transposed operands; non-trivial = non-square or transposed or non-conformable");
-    let maxd = run.tier.pick(9usize, 12usize);
+    let maxd = run.tier.pick(9usize, 40usize);
     run.bound("matmul shapes m,l,n", format!("1..={} plus {:?}^3", maxd, if run.thorough() { vec![15, 16, 17, 31, 32, 33, 63, 64, 65] } else { vec![16, 17, 33, 64] }));
     let mut dims: Vec<(usize, usize, usize)> = Vec::new();
     for m in 1..=maxd {
@@ -229,7 +229,7 @@ pub fn run(run: &Run) {
     });
 
     // ---- Dot trait: Matrix · Matrix ------------------------------------------------------
-    let sd = run.tier.pick(5usize, 7usize);
+    let sd = run.tier.pick(5usize, 9usize);
     run.bound("Dot shape pairs", format!("(r1,c1,r2,c2) in 1..={}^4, all 16 method×form combinations", sd));
     let mut pairs = Vec::new();
     for r1 in 1..=sd {
@@ -282,7 +282,7 @@ pub fn run(run: &Run) {
     });
 
     // ---- Dot trait: Matrix · Vector, Vector · Matrix, Vector · Vector ---------------------
-    let vl = run.tier.pick(6usize, 9usize);
+    let vl = run.tier.pick(6usize, 12usize);
     run.bound("Dot vector lengths", format!("1..={} against all matrix shapes 1..={}^2", vl, sd));
     let mut mv = Vec::new();
     for r in 1..=sd {
